@@ -10,8 +10,10 @@
     - [cnt ps c] is the pin counter of chunk [c] (0 when it has no entry),
       [pin_has] is DB.Has(ModeHasPin);
     - [Setting cs dm U base]: the references in [U] are distinct and stored
-      (traversal completes, every reported chunk present) and
-      [base c + sum over U of multiplicities < 2^64];
+      ([probe cs dm r = PROk]: the whole-file read with which the traversal
+      starts succeeds on the stored bytes — every chunk of the tree is present;
+      then the walk completes and every reported address holds a chunk,
+      [probe_stored]) and [base c + sum over U of multiplicities < 2^64];
     - [Inv cs dm U base ps]: stored bytes = [dm]; every root key holds its own
       reference; listed references are in [U]; for EVERY chunk
       [cnt ps c = base c + sum of the multiplicities of c in the listed references];
@@ -19,13 +21,19 @@
       root pins satisfies it with [base] = its own counters; every operation of
       a history preserves it ([C15_history_accounting]).
 
+    Histories ([svc_op], [api_op], [allowed]): pin / unpin / has / list calls
+    whose reference is one of [U] or is NOT stored ([refok]: the probe answers
+    not-found — such a pin fails with not-found and changes nothing);
+    [last_op h k d] = was the last pin/unpin of [k] in [h] a pin of a stored
+    reference ([d] when [h] has none).
+
     The theorems hold for every chunk size [cs], capacity, proximity function
     and clock values; [ChunkSize] of the Go source is one instance (used by
     the correspondence and by the example). *)
 From Coq Require Import List NArith ZArith Bool.
 Import ListNotations.
 Require Import Aurora.Consts Aurora.C11.Maps Aurora.C15.Model Aurora.C15.ProofsWalk Aurora.C15.ProofsStore
-  Aurora.C15.ProofsPin Aurora.C15.ProofsInv Aurora.C15.ProofsTop.
+  Aurora.C15.ProofsPin Aurora.C15.ProofsProbe Aurora.C15.ProofsInv Aurora.C15.ProofsTop.
 Local Open Scope N_scope.
 
 Theorem C15_clean_state_inv : forall cs dm U base ps,
@@ -67,9 +75,9 @@ Proof. exact unpin_idempotent_svc. Qed.
 Print Assumptions C15_unpin_idempotent_svc.
 
 Theorem C15_listed_iff_last_was_pin_svc : forall cs capacity po dm U base, Setting cs dm U base ->
-  forall h ps, Inv cs dm U base ps -> Forall (svc_op U) h ->
+  forall h ps, Inv cs dm U base ps -> Forall (svc_op cs dm U) h ->
   let ps' := pexec cs capacity po ps h in
-  (forall k, has_pin ps' k = last_op h k (has_pin ps k)) /\ (forall k, In k (pins ps') <-> has_pin ps' k = true).
+  (forall k, has_pin ps' k = last_op cs dm h k (has_pin ps k)) /\ (forall k, In k (pins ps') <-> has_pin ps' k = true).
 Proof. exact listed_iff_last_was_pin_svc. Qed.
 Print Assumptions C15_listed_iff_last_was_pin_svc.
 
@@ -107,9 +115,9 @@ Proof. exact unpin_idempotent_api. Qed.
 Print Assumptions C15_unpin_idempotent_api.
 
 Theorem C15_listed_iff_last_was_pin_api : forall cs capacity po dm U base, Setting cs dm U base ->
-  forall h ps, Inv cs dm U base ps -> Forall (api_op U) h ->
+  forall h ps, Inv cs dm U base ps -> Forall (api_op cs dm U) h ->
   let ps' := pexec cs capacity po ps h in
-  (forall k, has_pin ps' k = last_op h k (has_pin ps k)) /\ (forall k, In k (pins ps') <-> has_pin ps' k = true).
+  (forall k, has_pin ps' k = last_op cs dm h k (has_pin ps k)) /\ (forall k, In k (pins ps') <-> has_pin ps' k = true).
 Proof. exact listed_iff_last_was_pin_api. Qed.
 Print Assumptions C15_listed_iff_last_was_pin_api.
 
@@ -120,11 +128,11 @@ Print Assumptions C15_listed_iff_last_was_pin_api.
     two histories ending with the same listed set end with the same counters),
     and a reference is listed iff its last pin/unpin was a pin *)
 Theorem C15_history_accounting : forall cs capacity po dm U base, Setting cs dm U base ->
-  forall h ps, Inv cs dm U base ps -> Forall (allowed U) h ->
+  forall h ps, Inv cs dm U base ps -> Forall (allowed cs dm U) h ->
   let ps' := pexec cs capacity po ps h in
   Inv cs dm U base ps' /\ dmap (p_ls ps') = dm /\
   (forall c, cnt ps' c = base c + total cs dm U (p_roots ps') c) /\
-  (forall k, has_pin ps' k = last_op h k (has_pin ps k)) /\
+  (forall k, has_pin ps' k = last_op cs dm h k (has_pin ps k)) /\
   (forall k, In k (pins ps') <-> has_pin ps' k = true).
 Proof. exact history_accounting. Qed.
 Print Assumptions C15_history_accounting.
@@ -159,7 +167,7 @@ Definition h0 : list pop :=
    PDelete 14 RA; PDelete 15 RA; PApiUnpin 16 L1; PApiUnpin 17 L1; PApiList].
 
 Example C15_hyps_satisfiable :
-  Setting CS dm0 U0 (cnt ps0) /\ Inv CS dm0 U0 (cnt ps0) ps0 /\ Forall (allowed U0) h0 /\
+  Setting CS dm0 U0 (cnt ps0) /\ Inv CS dm0 U0 (cnt ps0) ps0 /\ Forall (allowed CS dm0 U0) h0 /\
   tl CS dm0 RA = [RA; L1; L2] /\ tl CS dm0 RB = [RB; L1; L1] /\ tl CS dm0 L1 = [L1] /\
   let ps' := pexec CS 1000 po0 ps0 h0 in
   pins ps' = [RB] /\ map (cnt ps') [L1; L2; RA; RB] = [2; 1; 0; 1] /\ map (cnt ps0) [L1; L2; RA; RB] = [0; 1; 0; 0].
@@ -167,10 +175,11 @@ Proof.
   assert (HS : Setting CS dm0 U0 (cnt ps0)).
   { split; [|split].
     - repeat constructor; cbn; intuition discriminate.
-    - intros r [<-|[<-|[<-|[]]]]; apply storedb_ok; vm_compute; reflexivity.
+    - intros r [<-|[<-|[<-|[]]]]; vm_compute; reflexivity.
     - apply (fitb_ok CS dm0 U0 (s_pin (p_ls ps0))). vm_compute. reflexivity. }
   split; [exact HS|]. split.
   { apply (clean_inv CS dm0 U0 (cnt ps0) ps0); [vm_compute; reflexivity | reflexivity | apply nozerob_ok; vm_compute; reflexivity | reflexivity]. }
-  split; [repeat constructor; cbn; tauto|].
+  split.
+  { unfold h0. repeat (constructor; [cbn [allowed]; first [exact I | left; unfold U0; cbn [In]; tauto]|]). constructor. }
   vm_compute. repeat split; reflexivity.
 Qed.
